@@ -32,9 +32,10 @@ def _lift(x):
 class SymArr:
     _abs_native = True
 
-    def __init__(self, shape, flat):
+    def __init__(self, shape, flat, boolean=False):
         self.shape = tuple(int(s) for s in shape)
-        self.flat = [_lift(x) for x in flat]
+        self.boolean = boolean        # an array allocated with dtype=bool keeps python booleans (usable as a mask)
+        self.flat = [bool(x) for x in flat] if boolean else [_lift(x) for x in flat]
         if len(self.flat) != _prod(self.shape):
             raise A.Undecided("shape %s does not hold %d elements" % (self.shape, len(self.flat)))
 
@@ -208,7 +209,10 @@ class SymArr:
         if v is not None and v.shape != shape:
             v = _broadcast_to(v, shape)
         for n, idx in enumerate(itertools.product(*[ix for ix, _ in sel])):
-            self.flat[sum(i * s for i, s in zip(idx, st))] = v.flat[n] if v is not None else _lift(value)
+            if self.boolean:
+                self.flat[sum(i * s for i, s in zip(idx, st))] = bool(v.flat[n] if v is not None else value)
+            else:
+                self.flat[sum(i * s for i, s in zip(idx, st))] = v.flat[n] if v is not None else _lift(value)
 
     # -------------------------------------------------------------- arithmetic
     def _bin(self, o, fn):
@@ -426,7 +430,48 @@ def np_summaries():
         return SymArr.of(a).copy()
 
     def zeros(shape, *a, **k):
+        dt = k.get("dtype", a[0] if a else None)
+        if dt is bool or (isinstance(dt, tuple) and "bool" in str(dt)) or dt == "bool":
+            sh = (shape,) if isinstance(shape, int) else tuple(shape)
+            return SymArr(sh, [False] * _prod(sh), boolean=True)
         return SymArr.zeros(shape)
+
+    def tensordot(a, b, axes=2):
+        a, b = SymArr.of(a), SymArr.of(b)
+        if isinstance(axes, int):
+            ax_a, ax_b = list(range(a.ndim - axes, a.ndim)), list(range(axes))
+        else:
+            ax_a, ax_b = axes
+            ax_a = [ax_a] if isinstance(ax_a, int) else list(ax_a)
+            ax_b = [ax_b] if isinstance(ax_b, int) else list(ax_b)
+        ax_a = [x % a.ndim for x in ax_a]
+        ax_b = [x % b.ndim for x in ax_b]
+        if [a.shape[i] for i in ax_a] != [b.shape[i] for i in ax_b]:
+            raise ValueError("shape-mismatch for sum")
+        free_a = [i for i in range(a.ndim) if i not in ax_a]
+        free_b = [i for i in range(b.ndim) if i not in ax_b]
+        shape = tuple(a.shape[i] for i in free_a) + tuple(b.shape[i] for i in free_b)
+        csh = [a.shape[i] for i in ax_a]
+        flat = []
+        for fa in itertools.product(*[range(a.shape[i]) for i in free_a]):
+            for fb in itertools.product(*[range(b.shape[i]) for i in free_b]):
+                tot = A.Rat.const(0)
+                for c in itertools.product(*[range(x) for x in csh]):
+                    ia = [0] * a.ndim
+                    ib = [0] * b.ndim
+                    for i, v in zip(free_a, fa):
+                        ia[i] = v
+                    for i, v in zip(ax_a, c):
+                        ia[i] = v
+                    for i, v in zip(free_b, fb):
+                        ib[i] = v
+                    for i, v in zip(ax_b, c):
+                        ib[i] = v
+                    tot = tot + a.at(tuple(ia)) * b.at(tuple(ib))
+                flat.append(tot)
+        if not shape:
+            return flat[0]
+        return SymArr(shape, flat)
 
     def sort(a):
         vals = sorted(_as_int(v, 10 ** 9) for v in SymArr.of(a).flat)
@@ -501,7 +546,7 @@ def np_summaries():
         "np.arange": lambda *a: SymArr.of(list(range(*a))), "np.atleast_1d": lambda a: SymArr.of(a) if SymArr.of(a).ndim else SymArr.of(a).reshape(1),
         "np.reshape": reshape, "np.array": array, "np.asarray": array, "np.zeros": zeros, "np.ones": lambda s, *a, **k: SymArr.ones(s),
         "np.eye": lambda n, *a, **k: SymArr.eye(n), "np.identity": lambda n: SymArr.eye(n),
-        "np.dot": dot, "np.kron": kron, "np.append": append, "np.bmat": bmat, "np.transpose": lambda a: SymArr.of(a).T,
+        "np.dot": dot, "np.tensordot": tensordot, "np.kron": kron, "np.append": append, "np.bmat": bmat, "np.transpose": lambda a: SymArr.of(a).T,
         "np.ravel": lambda a, order="C": SymArr.of(a).flatten(order), "np.sort": sort, "np.copy": lambda a: SymArr.of(a).copy(),
         "np.add": lambda a, b: SymArr.of(a) + b, "np.sum": lambda a, axis=None: SymArr.of(a).sum(axis),
         "scipy.sparse.kron": kron, "scipy.sparse.eye": lambda n, *a, **k: SymArr.eye(n), "scipy.linalg.block_diag": block_diag,
